@@ -359,7 +359,7 @@ func (w *aWorld) step(op AOp, names []string, path []int) (enabled bool, changed
 	if tx != nil {
 		txs = append(txs, tx)
 	}
-	cm, err := w.c.Step(env.BlockSpec{Txs: txs, Proposer: kV, Results: results})
+	cm, err := w.c.StepFast(env.BlockSpec{Txs: txs, Proposer: kV, Results: results}, nil)
 	if err != nil {
 		bad("block-failed", "block could not be committed: "+err.Error())
 		return true, false, viols
@@ -370,7 +370,7 @@ func (w *aWorld) step(op AOp, names []string, path []int) (enabled bool, changed
 	}
 	if ownOrders != nil {
 		// the instructions are applied by the next block's BeginBlock
-		if _, err = w.c.Step(env.BlockSpec{Proposer: kV}); err != nil {
+		if _, err = w.c.StepFast(env.BlockSpec{Proposer: kV}, nil); err != nil {
 			bad("block-failed", "block applying the certificate results could not be committed: "+err.Error())
 			return true, false, viols
 		}
